@@ -123,11 +123,14 @@ def run(ctx, known, built):
         "rule": "one evaluation = one scenario (font built by recipe / loaded and edited / loaded from a crafted "
                 "UFO; target absent, empty, another UFO, a larger UFO, a plain file, nested junk, or the source "
                 "itself) through Font::save and the Coq model, compared on outcome and full sandbox snapshot, plus "
-                "the three oracle checks. Non-trivial = the save succeeded over existing contents, in place, or from "
+                "the oracle checks; every 7th index also runs a cross-font history in the same thread (a save of another "
+                "font that must fail - Uid in a glyph lib, objectLibs keys, invalid info, bad store entry - then this "
+                "font saved to a fresh path and over an existing target), the reference save always running in a "
+                "thread of its own. Non-trivial = the save succeeded over existing contents, in place, or from "
                 "a crafted UFO; distinct by (kind, crafted variant, prior, in place, number of entries written, classes).",
         "exhaustive": False,
         "input_distribution": {
-            "kinds": dict(collections.Counter({0: "built", 1: "loaded+edited", 2: "crafted"}[r["kind"]] for r in rows)),
+            "kinds": dict(collections.Counter({0: "built", 1: "loaded+edited", 2: "crafted", 3: "cross-font history"}.get(r["kind"], "other") for r in rows)),
             "priors": dict(collections.Counter(r["prior"] for r in rows)),
             "outcomes": dict(collections.Counter(r["obs"].split(" ")[0].strip("(") for r in rows)),
             "crafted_variants": dict(collections.Counter(str(r["variant"]) for r in rows if r["kind"] == 2)),
@@ -152,7 +155,9 @@ def replay(ctx, path):
         if "index" not in case:
             print("replay file names no scenario (kind=%s): %s" % (d.get("kind"), json.dumps(d)[:800]))
             return 1
-        if case["index"] == 0:
+        if (case.get("scenario") or {}).get("variant", 0) >= 100:      # a cross-font history
+            open(tmp, "w").write("%d %d x\n" % (case.get("seed", d.get("seed", 1)), case["index"]))
+        elif case["index"] == 0:
             open(tmp, "w").write("variant 0\n")
         else:
             open(tmp, "w").write("%d %d\n" % (case.get("seed", d.get("seed", 1)), case["index"]))
